@@ -34,8 +34,7 @@ func histNullifyS(x *string) *string {
 	if x == nil || len(*x)%2 == 0 {
 		return nil
 	}
-	s := (*x)[:1]
-	return &s
+	return x // (no string the table did not hold: some checks restrict what cells may contain)
 }
 func histConstB(x bool) bool { return true }
 
